@@ -310,6 +310,13 @@ TrFault ==
                 \cup (IF e.res.c = "ok" /\ isobs /\ ~ObsValOK(e, world) THEN {"fault_value"} ELSE {})
                 \cup (IF isobs /\ ~ObsMatches(o, world) THEN {"fault_observer_effect"} ELSE {})
                 \cup (IF WellFormedObs(o) THEN {} ELSE {"wellformed"})
+                \* C10 under faults: a FAILED creation at an absent path may leave a partial result (nothing, or a file
+                \* with a prefix of the bytes being written, or a directory) but never bytes it did not write - what a
+                \* lower layer still holds below a whiteout marker stays hidden
+                \cup (IF ~isobs /\ e.op = "create_file" /\ e.res.c \in ErrClasses /\ e.p \in Universe /\ Kind(world, e.p) = "none"
+                        /\ Kind(TreeOfObs(o), e.p) = "file" /\ ~IsPrefix(Data(TreeOfObs(o), e.p), e.c) THEN {"fault_resurrect"} ELSE {})
+                \cup (IF ~isobs /\ e.op \in {"create_dir", "create_dir_all"} /\ e.res.c \in ErrClasses /\ e.p \in Universe /\ Kind(world, e.p) = "none"
+                        /\ Kind(TreeOfObs(o), e.p) = "file" THEN {"fault_resurrect"} ELSE {})
                 \* C12 under faults: the error (also the Err item of walk_dir) names the caller's path
                 \cup (IF e.res.c \in ErrClasses /\ ~EpOK(e.res.ep, e.p, IF HasDest(e.op) THEN e.q ELSE e.p) THEN {"errpath"} ELSE {})
                 \* C08 under faults: whatever state the failed operation left, observers issue no mutating call
